@@ -270,6 +270,28 @@ def unfolded_size(t, cap=10 ** 9):
     return go(t)
 
 
+def has_shared_ambig(t):
+    """is some _ambig Tree object a child of two different parent objects (or twice of one)?  Only then can
+    AmbiguousExpander's in-place expand_kids_by_data have flattened it more than once."""
+    from lark import Tree
+    seen_parent = {}
+    done = set()
+    stack = [t]
+    while stack:
+        x = stack.pop()
+        if not isinstance(x, Tree) or id(x) in done:
+            continue
+        done.add(id(x))
+        for c in x.children:
+            if isinstance(c, Tree):
+                if c.data == '_ambig':
+                    seen_parent[id(c)] = seen_parent.get(id(c), 0) + 1
+                    if seen_parent[id(c)] > 1:
+                        return True
+                stack.append(c)
+    return False
+
+
 def export_tree(t):
     from lark import Tree, Token
     if t is None:
@@ -636,6 +658,10 @@ def run_case(grammar, lexer, text, parser=None, mp=True):
         return dict(status='reject')
     except Hang:
         return dict(status='hang')
+    except RecursionError:
+        return dict(status='reject')      # not examined (python stack), not a verdict
+    except Exception as e:     # anything else is not a documented outcome of parse()
+        return dict(status='exception', exception='%s: %s' % (type(e).__name__, str(e)[:200]))
     if unfolded_size(tree) > MAX_TREE:
         return dict(status='ok-huge', root=root, parser=parser)
     return dict(status='ok', tree=export_tree(tree), lark_tree=tree, root=root, parser=parser)
@@ -645,6 +671,8 @@ def property_verdict(parser, lexer, text, obs, cyclic, mp=True):
     """None if the property holds on this observation, else (kind, detail). obs from run_case."""
     if obs['status'] == 'hang':
         return ('hang', 'parse did not terminate within %ss' % CALL_TIMEOUT)
+    if obs['status'] == 'exception':
+        return ('exception', 'parse raised ' + obs['exception'])
     if obs['status'] == 'ok-huge':
         return None
     if cyclic:
@@ -725,14 +753,14 @@ def witness(grammar, lexer, text, opts):
     return {'grammar': grammar, 'lexer': lexer, 'text': text, 'options': opts}
 
 
-def coq_case(forest, tree, cobs, rt):
+def coq_case(forest, tree, cobs, rt, strict=True):
     if cobs == 'skip':
         o = 'None'
     elif cobs is None:
         o = '(Some None)'
     else:
         o = '(Some (Some %s))' % L([coq_tree(t) for t in cobs])
-    return '(%s, %s, %s)' % (coq_forest(forest, rt), coq_tree(tree), o)
+    return '(%s, %s, %s, %s)' % (B(strict), coq_forest(forest, rt), coq_tree(tree), o)
 
 
 def tree_size(t):
@@ -802,7 +830,10 @@ def run_stream(ctx, stream, ngrammars, cyclic_wanted, maxlen, cases, meta, defs)
                 if msg:
                     ctx.violation('property-oracle:collapse', dict(witness(g, lexer, text, opts), collapse=True), True, msg)
                     verdict = verdict or ('collapse', msg)
-            cases.append(coq_case(forest, obs['tree'], cobs, rt))
+            strict = not has_shared_ambig(obs['lark_tree'])
+            if not strict:
+                ctx.count(stream + ':shared-ambig-object(compared modulo nested _ambig)', nontrivial=False)
+            cases.append(coq_case(forest, obs['tree'], cobs, rt, strict))
             meta.append((g, lexer, text, opts, verdict))
             if amb:
                 ctx.sample({'grammar': g, 'lexer': lexer, 'text': text, 'options': opts,
